@@ -78,3 +78,282 @@ Print Assumptions c02_inv_reads.
 Print Assumptions c02_refused_move_is_noop.
 Print Assumptions c02_place_orientation.
 Print Assumptions c02_shift_guard_sound.
+
+(* ====================================================================================== *)
+(* The CONCRETE model (DESIGN.md section 4, C02 item 2, `concrete_refines_abstract`).
+   MovesConcrete.v models DetailedPlacement with its index arrays cellPred_/cellNext_/cellRow_/
+   rowFirstCell_/rowLastCell_ (lists of C++ ints, -1 = none; every access through getZ/setZ, which
+   fail on an out-of-range index) and follows place/unplace/insert/swap/canPlace/canInsert/canSwap/
+   boundaryBefore/boundaryAfter/siteBegin/siteEnd line by line.  MovesConcreteProofs.v proves that
+   it refines the abstract list model Moves.v used above:
+     abs : cstate -> option dstate   walks every row from rowFirstCell_ along cellNext_ (fuel =
+                                     number of cells, fails on a cycle / a cell of another row /
+                                     an index out of range); the unplaced cells in index order;
+     WF  : cstate -> Prop            array sizes consistent + the arrays represent some family of
+                                     row lists (Rep); equivalent to the pointwise predicate WFp
+                                     (what check() verifies about the pointers + pred/next mutually
+                                     inverse + every placed cell reaches a cell without predecessor);
+     deq s s'                        d_rows s = d_rows s' and, for every id, the unplaced cells
+                                     with this id are the same lists.  (The abstract model keeps
+                                     unplaced cells in order of unplacing, a history artefact the
+                                     arrays do not have; take_loose only observes this quotient.
+                                     The ROWS are equal on the nose.)
+     predOk cs row pred              pred == -1 || cellRow(pred) == row: the C++ never checks that
+                                     `pred` belongs to `row` (caller obligation; the harness and
+                                     the abstract model do). *)
+Require CV.MovesConcrete.
+Require Import CV.MovesConcreteProofs.
+Module MC := CV.MovesConcrete.
+
+(* [F] 1. a well-formed concrete state has an abstraction (no cycle, no dangling index) *)
+Theorem c02c_wf_has_abstraction : forall cs, WF cs -> exists s, MC.abs cs = Some s.
+Proof. exact WF_abs. Qed.
+
+(* [F] 1'. WF is the pointwise predicate WFp: sizes; per row first/last consistent; per cell: row in
+   range, unplaced cells have no pred/next, pred/next in the same row and mutually inverse, a cell
+   without pred (next) is the first (last) of its row; every placed cell reaches the head of its row *)
+Theorem c02c_wf_pointwise : forall cs, WF cs <-> WFp cs.
+Proof. exact WF_iff_WFp. Qed.
+
+(* [F] 2a. unplace commutes with abs: for EVERY well-formed state and every cell index, the concrete
+   unplace succeeds iff the abstract one does, the result is well formed and its abstraction is the
+   abstract result *)
+Theorem c02c_unplace_commutes : forall cs s c, WF cs -> MC.abs cs = Some s ->
+  match MC.unplace cs (Z.of_nat c), Moves.unplace s c with
+  | Some cs', Some s' => WF cs' /\ exists s'', MC.abs cs' = Some s'' /\ deq s'' s'
+  | None, None => True
+  | _, _ => False
+  end.
+Proof. exact unplace_commutes. Qed.
+
+(* [F] 2b. place commutes with abs (under the caller obligation predOk; without it the abstract
+   model refuses: c02c_place_refused_without_predOk) *)
+Theorem c02c_place_commutes : forall cs s c i pred x, WF cs -> MC.abs cs = Some s ->
+  MC.predOk cs (Z.of_nat i) (MC.enc pred) = true ->
+  match MC.place cs (Z.of_nat c) (Z.of_nat i) (MC.enc pred) x, Moves.place s c i pred x with
+  | Some cs', Some s' => WF cs' /\ exists s'', MC.abs cs' = Some s'' /\ deq s'' s'
+  | None, None => True
+  | _, _ => False
+  end.
+Proof. exact place_commutes. Qed.
+
+Theorem c02c_place_refused_without_predOk : forall cs s c i pred x, WF cs -> MC.abs cs = Some s ->
+  MC.predOk cs (Z.of_nat i) (MC.enc pred) = false -> Moves.place s c i pred x = None.
+Proof. exact place_refused_without_predOk. Qed.
+
+(* [F] 2c. insert and swap (the C++ compositions of canInsert/positionOnInsert/unplace/place and
+   canSwap/positionsOnSwap/unplace/unplace/place/place) simulate the abstract ones *)
+Theorem c02c_insert_commutes : forall cs s c i pred, WF cs -> MC.abs cs = Some s ->
+  MC.predOk cs (Z.of_nat i) (MC.enc pred) = true ->
+  match MC.insert cs (Z.of_nat c) (Z.of_nat i) (MC.enc pred), Moves.insert s c i pred with
+  | Some cs', Some s' => WF cs' /\ exists s'', MC.abs cs' = Some s'' /\ deq s'' s'
+  | None, None => True
+  | _, _ => False
+  end.
+Proof. exact insert_commutes. Qed.
+
+Theorem c02c_swap_commutes : forall cs s c1 c2, WF cs -> MC.abs cs = Some s ->
+  match MC.swap cs (Z.of_nat c1) (Z.of_nat c2), Moves.swap s c1 c2 with
+  | Some cs', Some s' => WF cs' /\ exists s'', MC.abs cs' = Some s'' /\ deq s'' s'
+  | None, None => True
+  | _, _ => False
+  end.
+Proof. exact swap_commutes. Qed.
+
+(* [F] the abstract operations respect deq (so the simulations compose) *)
+Theorem c02c_abstract_ops_respect_deq : forall s1 s2 o, deq s1 s2 ->
+  match apply_mop s1 o, apply_mop s2 o with
+  | Some a, Some b => deq a b | None, None => True | _, _ => False end.
+Proof. exact apply_mop_compat. Qed.
+
+(* [F] 2d. concrete_refines_abstract: every history of concrete operations (run_cops: an operation is
+   performed when the caller obligation holds and the C++ does not throw) is simulated by the same
+   history of abstract operations *)
+Theorem c02c_concrete_refines_abstract : forall ops cs s, WF cs -> MC.abs cs = Some s ->
+  WF (MC.run_cops cs ops) /\ exists s', MC.abs (MC.run_cops cs ops) = Some s' /\ deq s' (run_mops s ops).
+Proof. exact concrete_refines_abstract. Qed.
+
+(* [F] 2e. legality of the rows rebuilt from the pointers is preserved by every history of
+   concrete operations (corollary of c02_moves_keep_rows_legal) *)
+Theorem c02c_concrete_histories_legal : forall ops cs s, WF cs -> MC.abs cs = Some s -> Inv s ->
+  WF (MC.run_cops cs ops) /\
+  exists s', MC.abs (MC.run_cops cs ops) = Some s' /\ Inv s' /\ deq s' (run_mops s ops).
+Proof. exact run_cops_legal. Qed.
+
+(* [F] 3. the guards computed on the arrays are the abstract ones *)
+Theorem c02c_site_begin_end : forall cs s i r pred a b, WF cs -> MC.abs cs = Some s ->
+  nth_error (d_rows s) i = Some r -> split_site pred (dr_cells r) = Some (a, b) ->
+  MC.siteBegin cs (Z.of_nat i) (MC.enc pred) = Some (site_begin (dr_min r) a) /\
+  MC.siteEnd cs (Z.of_nat i) (MC.enc pred) = Some (site_end (dr_max r) b).
+Proof. exact site_abs. Qed.
+
+Theorem c02c_canPlace : forall cs s c m loose' i r pred a b x, WF cs -> MC.abs cs = Some s ->
+  take_loose c (d_loose s) = Some (m, loose') ->
+  nth_error (d_rows s) i = Some r -> split_site pred (dr_cells r) = Some (a, b) ->
+  MC.canPlace cs (Z.of_nat c) (Z.of_nat i) (MC.enc pred) x =
+  Some ((site_begin (dr_min r) a <=? x) && (x + p_w m <=? site_end (dr_max r) b)).
+Proof. exact canPlace_abs_site. Qed.
+
+Theorem c02c_boundaries : forall cs s c i r a m b, WF cs -> MC.abs cs = Some s ->
+  find_row (d_rows s) c 0 = Some (i, r, a, m, b) ->
+  MC.boundaryBefore cs (Z.of_nat c) = Some (fst (bounds_of r a b)) /\
+  MC.boundaryAfter cs (Z.of_nat c) = Some (snd (bounds_of r a b)).
+Proof. exact boundaries_abs. Qed.
+
+Theorem c02c_canInsert : forall cs s c i pred, WF cs -> MC.abs cs = Some s ->
+  MC.predOk cs (Z.of_nat i) (MC.enc pred) = true ->
+  MC.canInsert cs (Z.of_nat c) (Z.of_nat i) (MC.enc pred) = can_insert s c i pred.
+Proof. exact canInsert_abs. Qed.
+
+Theorem c02c_canSwap : forall cs s c1 c2, WF cs -> MC.abs cs = Some s ->
+  MC.canSwap cs (Z.of_nat c1) (Z.of_nat c2) = can_swap s c1 c2.
+Proof. exact canSwap_abs. Qed.
+
+(* non-vacuity: the arrays of ex_state (2 rows, 3 cells); unplace(0) then place(0, row 1, pred 2, x 4)
+   computed on the arrays; abs before / after each step is the abstract state / the abstract result;
+   a swap + insert history through run_cops *)
+Definition ex_cstate : MC.cstate := {|
+  MC.c_rows := [ {| MC.cr_min := 0; MC.cr_max := 10; MC.cr_y := 0; MC.cr_o := oN |};
+                 {| MC.cr_min := 0; MC.cr_max := 8; MC.cr_y := 1; MC.cr_o := oFS |} ];
+  MC.c_first := [0; 2]; MC.c_last := [1; 2];
+  MC.c_width := [3; 2; 3]; MC.c_pred := [-1; 0; -1]; MC.c_next := [1; -1; -1]; MC.c_row := [0; 0; 1];
+  MC.c_x := [0; 4; 1]; MC.c_y := [0; 0; 1]; MC.c_orient := [oN; oN; oFS]; MC.c_pol := [pANY; pSAME; pSAME] |}.
+
+Example c02c_nonvacuous :
+  WF ex_cstate /\ MC.abs ex_cstate = Some ex_state /\
+  (exists cs1 cs2,
+     MC.unplace ex_cstate 0 = Some cs1 /\ MC.place cs1 0 1 2 4 = Some cs2 /\
+     MC.c_pred cs1 = [-1; -1; -1] /\ MC.c_next cs1 = [-1; -1; -1] /\ MC.c_row cs1 = [-1; 0; 1] /\
+     MC.c_first cs1 = [1; 2] /\ MC.c_last cs1 = [1; 2] /\
+     MC.c_pred cs2 = [2; -1; -1] /\ MC.c_next cs2 = [-1; -1; 0] /\ MC.c_row cs2 = [1; 0; 1] /\
+     MC.c_first cs2 = [1; 2] /\ MC.c_last cs2 = [1; 0] /\
+     MC.abs cs1 = Moves.unplace ex_state 0 /\ MC.abs cs1 <> None /\
+     MC.abs cs2 = (match Moves.unplace ex_state 0 with Some s1 => Moves.place s1 0 1 (Some 2%nat) 4 | None => None end) /\
+     MC.abs cs2 <> None) /\
+  MC.abs (MC.run_cops ex_cstate [MSwap 1 2; MInsert 0 1 (Some 2%nat)]) =
+    Some (run_mops ex_state [MSwap 1 2; MInsert 0 1 (Some 2%nat)]) /\
+  MC.run_cops ex_cstate [MSwap 1 2; MInsert 0 1 (Some 2%nat)] <> ex_cstate.
+Proof.
+  split; [|split; [vm_compute; reflexivity|split]].
+  - split; [unfold Sizes; repeat split; reflexivity|]. exists [[0%nat; 1%nat]; [2%nat]]. split; [reflexivity|]. split.
+    + intros [|[|[|i]]] l H; cbn in H; try discriminate; injection H as <-; unfold row_rep; cbn; repeat split; repeat constructor.
+    + intros [|[|[|c]]] r H; cbn in H.
+      * injection H as <-. right. exists 0%nat, [0%nat; 1%nat]. cbn. tauto.
+      * injection H as <-. right. exists 0%nat, [0%nat; 1%nat]. cbn. tauto.
+      * injection H as <-. right. exists 1%nat, [2%nat]. cbn. tauto.
+      * destruct c; discriminate.
+  - eexists. eexists. split; [vm_compute; reflexivity|]. split; [vm_compute; reflexivity|].
+    vm_compute. repeat split; try reflexivity; discriminate.
+  - split; [vm_compute; reflexivity|vm_compute; discriminate].
+Qed.
+
+Print Assumptions c02c_wf_has_abstraction.
+Print Assumptions c02c_wf_pointwise.
+Print Assumptions c02c_unplace_commutes.
+Print Assumptions c02c_place_commutes.
+Print Assumptions c02c_place_refused_without_predOk.
+Print Assumptions c02c_insert_commutes.
+Print Assumptions c02c_swap_commutes.
+Print Assumptions c02c_abstract_ops_respect_deq.
+Print Assumptions c02c_concrete_refines_abstract.
+Print Assumptions c02c_concrete_histories_legal.
+Print Assumptions c02c_site_begin_end.
+Print Assumptions c02c_canPlace.
+Print Assumptions c02c_boundaries.
+Print Assumptions c02c_canInsert.
+Print Assumptions c02c_canSwap.
+
+(* ====================================================================================== *)
+(* "It never fails on a circuit that legalization alone accepts": the construction of the row
+   structure, DetailedPlacement::fromIspdCircuit + the DetailedPlacement constructor + check(),
+   modelled line by line in DetailedInit.v with every C++ exception as an error
+   (from_circuit : circuit -> result dstate follows the CURRENT code, i.e. with the repair da3fc07 of
+   finding F20; from_circuit_orig is the code before it); proofs in DetailedInitProofs.v; tied to the
+   C++ by ./check C02 (tag FC: structure or exception of the real fromIspdCircuit against the model).
+     std_design c rh   the C01 domain (LegalizerSoundProofs): rows of one positive height rh, pairwise
+                       disjoint, not turned; movable cells of positive placed width, placed height a
+                       positive multiple of rh, not turned unless without polarity;
+     kept rh k         k is movable and exactly one row high (the cells detailed placement optimises);
+     orient_pre c rh   every kept cell has the orientation the table gives for the row under its
+                       bottom-left corner when the table gives one (what check() insists on; it
+                       follows from Circuit.orient_ok, the conclusion of C04 for legalization);
+     cell_image i k    the cell of the structure standing for circuit cell i: id i, x, placed width,
+                       polarity, orientation;
+     dp_rows c rh      computeRows(obstacles): the rows minus the fixed obstructions and minus the
+                       movable cells that are not one row high. *)
+Require Import CV.FreeSpace CV.Circuit CV.Legalizer CV.LegalizerSoundProofs.
+Require Import CV.DetailedInit CV.DetailedInitProofs CV.MovesOrientProofs.
+
+(* [F on the stated domain] for every circuit of the C01 domain that is legal and carries the
+   orientations check() insists on, fromIspdCircuit throws nothing, the structure satisfies the row
+   invariant (the base case of c02_moves_keep_rows_legal), its rows are the free segments sorted by
+   (y, x), and its cells are exactly the movable row-high cells, each at its x in a row at its y.
+   Multi-row cells and fixed cells are not in the structure (they cannot be moved by it: "stay
+   exactly where legalization put them").  Circuits WITHOUT ROWS are included since /repo commit
+   da3fc07 (repair of finding F20: rowHeight = nbRows() > 0 ? rowHeight() : 0): a legal circuit
+   without rows has no movable cell and the structure is empty *)
+Theorem c02_from_circuit_accepts_legal : forall c rh,
+  std_design c rh -> legal c -> orient_pre c rh ->
+  exists s, from_circuit c = DOk s /\ Inv s /\ d_loose s = [] /\
+    map row_geom (d_rows s) = map seg_geom (sort_rows (dp_rows c rh)) /\
+    (forall i k, nth_error (cells c) i = Some k -> kept rh k ->
+       exists dr, In dr (d_rows s) /\ dr_y dr = c_y k /\ In (cell_image i k) (dr_cells dr)) /\
+    (forall dr p, In dr (d_rows s) -> In p (dr_cells dr) ->
+       exists k, nth_error (cells c) (p_id p) = Some k /\ kept rh k /\ p = cell_image (p_id p) k /\ dr_y dr = c_y k).
+Proof. exact from_circuit_accepts_legal. Qed.
+
+(* [F on the stated domain] the form used by Circuit::placeDetailed, which legalizes first: with the
+   orientations legalization leaves (orient_ok before c: c04_legalize_circuit_orient_ok) nothing is
+   thrown and the structure satisfies both the row invariant and the orientation invariant (the base
+   case of c04_moves_keep_orientation) *)
+Theorem c02_from_circuit_after_legalization : forall before c rh,
+  std_design c rh -> legal c -> orient_ok before c ->
+  exists s, from_circuit c = DOk s /\ Inv s /\ OInvM s.
+Proof. exact from_circuit_after_legalization. Qed.
+
+(* [R about the code BEFORE /repo commit da3fc07; finding F20, repaired] the original
+   fromIspdCircuit (from_circuit_orig: `int rowHeight = circuit.rowHeight();` unconditionally) threw
+   "Cannot compute row height as no row has been defined" on a circuit without rows and without
+   movable cells, which is legal and which legalization accepts (it has nothing to place).
+   Reproduced on the C++ before the repair (Circuit c(1), one fixed cell, no rows: legalize()
+   returns, placeDetailed() throws; same for Circuit c(0)).  The current code (from_circuit) builds
+   the empty structure: last conjunct, and c02_from_circuit_accepts_legal has no hypothesis on rows *)
+Theorem c02_from_circuit_norows_orig_refuted :
+  std_design w_norows 2 /\ legal w_norows /\ orient_pre w_norows 2 /\
+  legalize_circuit w_norows [] = LegOk w_norows /\
+  from_circuit_orig w_norows = DErr ENoRows /\
+  from_circuit w_norows = DOk {| d_rows := []; d_loose := [] |}.
+Proof. exact from_circuit_norows_orig_refuted. Qed.
+
+(* [R] `orient_pre` cannot be dropped (legality does not mention orientations): check() throws on a
+   legal circuit whose SAME cell is oriented FS on an N row.  Not reachable through placeDetailed
+   (c02_from_circuit_after_legalization) *)
+Theorem c02_from_circuit_orientation_refuted :
+  std_design w_badorient 2 /\ rows w_badorient <> [] /\ legal w_badorient /\
+  from_circuit w_badorient = DErr ECheckOrientation.
+Proof. exact from_circuit_orientation_refuted. Qed.
+
+(* [R] pairwise disjoint rows (part of the domain) cannot be dropped: the constructor's search
+   (std::upper_bound on the rows sorted by (y, x), then ONE candidate row) takes the last row that
+   starts at or before the cell; with overlapping rows that may be a row too short for the cell *)
+Theorem c02_from_circuit_overlapping_rows_refuted :
+  legal w_overlaprows /\ orient_pre w_overlaprows 2 /\ ~ pairwise_disjoint (map rr (rows w_overlaprows)) /\
+  from_circuit w_overlaprows = DErr (ERowEndsBefore 0).
+Proof. exact from_circuit_overlapping_rows_refuted. Qed.
+
+(* non-vacuity: the circuit ex_dinit of DetailedInitProofs.v (two rows N / FS, a fixed obstruction, a
+   fixed non-obstruction under a movable cell, a two-row movable cell that splits both rows, cells
+   exactly on segment ends, a turned cell) satisfies every hypothesis; the structure is computed *)
+Example c02_from_circuit_nonvacuous :
+  std_design ex_dinit 2 /\ rows ex_dinit <> [] /\ legal ex_dinit /\ orient_pre ex_dinit 2 /\
+  exists s, from_circuit ex_dinit = DOk s /\
+    map (fun dr => (dr_min dr, dr_max dr, dr_y dr, map (fun p => (p_id p, p_x p, p_w p)) (dr_cells dr))) (d_rows s) =
+    [ (0, 8, 0, [(1%nat, 0, 3); (2%nat, 5, 3)]); (10, 16, 0, [(3%nat, 10, 6)]); (18, 20, 0, []);
+      (0, 16, 2, [(7%nat, 0, 3); (5%nat, 12, 3)]); (18, 20, 2, [(8%nat, 18, 2)]) ].
+Proof. exact from_circuit_nonvacuous. Qed.
+
+Print Assumptions c02_from_circuit_accepts_legal.
+Print Assumptions c02_from_circuit_after_legalization.
+Print Assumptions c02_from_circuit_norows_orig_refuted.
+Print Assumptions c02_from_circuit_orientation_refuted.
+Print Assumptions c02_from_circuit_overlapping_rows_refuted.
